@@ -165,12 +165,16 @@ void c14_run(Ctx & c)
   uint64_t idx = 0;
   std::vector<int64_t> L; for(int64_t x : lattice()) if(sabs(x) < (1ll << 47)) L.push_back(x);
   for(int64_t a : L) for(int64_t b : L) if(c.mine(idx++)) c.run_check(H, a, b);
-  uint64_t n = c.share(c.n(800000, 100000000));
+  // every pair of tiny operands (quick: below 2^9 raw, thorough: below 2^11)
+  { int64_t T = c.thorough ? 2048 : 512; for(int64_t a = 0; a < T; ++a) for(int64_t b = a; b < T; ++b) if(c.mine(idx++)) c.run_check(H, a, b); }
+  uint64_t n = c.share(c.n(1100000, 130000000));
   for(uint64_t i = 0; i < n; ++i)
     {
     int64_t a, b;
-    switch(c.rng.below(6))
+    switch(c.rng.below(8))
       {
+      case 6: a = c.rng.range(1ll << 12, 1ll << 17); b = c.rng.range(1ll << 12, 1ll << 17); break; // both operands small: the un-scaled / scaled decision on the smaller one
+      case 7: a = c.rng.range(1, 1ll << 13); b = c.rng.range(1, 1ll << 17); break;
       case 0: a = c.rng.logu(47); b = c.rng.logu(47); break;
       case 1: a = (1ll << 30) + c.rng.range(-256, 256); b = c.rng.logu(31); break;           // uhi branch frontier
       case 2: a = c.rng.logu(30); b = 65536 + c.rng.range(-256, 256); break;               // ulo branch frontier
